@@ -1861,5 +1861,20 @@ def _array_or_tuple_to_list(conf):
         elif isinstance(val, dict):
             conf[key] = _array_or_tuple_to_list(conf[key])
         elif isinstance(val, tuple):
-            conf[key] = list(val)
+            conf[key] = _numpy_scalars_to_python(list(val))
+        else:
+            conf[key] = _numpy_scalars_to_python(val)
     return conf
+
+
+def _numpy_scalars_to_python(val):
+    """Replace numpy scalars by the equivalent python scalars (also inside lists, tuples and dicts)."""
+    if isinstance(val, np.generic):
+        return val.item()
+    elif isinstance(val, list):
+        return [_numpy_scalars_to_python(v) for v in val]
+    elif isinstance(val, tuple):
+        return tuple(_numpy_scalars_to_python(v) for v in val)
+    elif isinstance(val, dict):
+        return {k: _numpy_scalars_to_python(v) for k, v in val.items()}
+    return val
